@@ -16,8 +16,8 @@ def config(name):
     par = dict(NPar=3, ParKinds=PK, ParInit=(1, 1, 1), ParVals={0, 1})
     if name == "components":         # every component kind, parameters with and without labels, loss, barriers, unitary blocks, swaps
         return cc.consts_of(**par, NUs={3, 4}, Numeric=False, MaxLen=5, DispMin=2, DispArgs=DISP,
-                            Kinds={"bs", "ps", "loss", "bar", "swap", "u", "herald", "display"}, Rids={1, 1001}, Pids={1, 1002}, LossQs={1, 1003},
-                            Lqs={0, 1, 1003}, Convs={"Rx", "H"}, SwapLevel=2, UIds={"H", "C3"}, HeraldNs={0, 1})
+                            Kinds={"bs", "ps", "loss", "bar", "swap", "u", "herald", "display"}, Rids={1, 1001}, Pids={1, 1002}, LossQs={1, 2, 1003},
+                            Lqs={0, 1, 2, 1003}, Convs={"Rx", "H"}, SwapLevel=2, UIds={"H", "C3"}, HeraldNs={0, 1})
     if name == "groups":             # plain and heralded groups, nesting depth 2, heralds on any modes, swaps spanning ancillas
         return cc.consts_of(**par, Scenario="tmpl", PNu=4, NObj=3, Targets={1, 2, 3}, AddPairs={(1, 2), (1, 3), (2, 3)}, Numeric=False, MaxLen=7,
                             DispMin=2, DispArgs=DISP, MaxAnc=4, MaxAdds=3, MaxHer=(1, 2, 2), TmplLoss=True, HeraldNs={0, 1}, SwapLevel=1,
